@@ -65,6 +65,7 @@ pub fn check(rep: &mut CaseReport, events: &[Event], view: &WireView, p: &Params
     let mut read_bytes: u64 = 0;
     let mut pending_arrival: Option<(i64, usize, Us, usize)> = None; // (idx, len, t, ev) waiting for its RxData outcome
     let mut my_max_payload_acked = 0usize;
+    let mut fin_at: Option<i64> = None; // index of the peer's FIN once it was taken in sequence
     let settle_immediate = |rep: &mut CaseReport, immediate: &mut Option<(Us, usize, &'static str)>, now: Us| {
         if let Some((t, _, why)) = *immediate {
             if now > t {
@@ -107,6 +108,11 @@ pub fn check(rep: &mut CaseReport, events: &[Event], view: &WireView, p: &Params
             };
             let idx = idx_of(pk.seq);
             match pk.ty {
+                wire::ST_DATA if fin_at.map_or(false, |f| idx > f) => {
+                        // numbered after the end of the stream: no data of this connection
+                        rep.counters.inc("c07_data_beyond_the_fin_seen");
+                        pending_arrival = None;
+                }
                 wire::ST_DATA => {
                     if idx <= contiguous || stored.contains(&idx) {
                         rep.counters.inc("c07_duplicates_seen");
@@ -119,9 +125,14 @@ pub fn check(rep: &mut CaseReport, events: &[Event], view: &WireView, p: &Params
                     }
                 }
                 wire::ST_FIN => {
-                    if idx == contiguous + 1 {
+                    if fin_at == Some(idx) {
+                        rep.counters.inc("c07_duplicate_fins_seen");
+                        immediate = Some((e.t, i, "another copy of the accepted FIN arrived"));
+                    } else if fin_at.is_none() && idx == contiguous + 1 {
                         rep.counters.inc("c07_fins_seen");
                         immediate = Some((e.t, i, "an in-sequence FIN arrived"));
+                        fin_at = Some(idx);
+                        contiguous = idx;
                         closing_after_emission(&mut closing);
                     }
                 }
@@ -190,7 +201,8 @@ pub fn check(rep: &mut CaseReport, events: &[Event], view: &WireView, p: &Params
                         read_bytes += *k as u64;
                         last_activity = e.t;
                         // re-opening a zero window
-                        if last_emitted_wnd == Some(0) {
+                        // (once the peer's FIN was taken nothing more can come: the window is moot)
+                        if last_emitted_wnd == Some(0) && fin_at.is_none() {
                             let deq = dequeued(read_bytes, &stored_len, contiguous);
                             let free = (p.capacity as u64).saturating_sub(stored_bytes_total.saturating_sub(deq));
                             if free >= seg as u64 && immediate.is_none() {
@@ -200,7 +212,12 @@ pub fn check(rep: &mut CaseReport, events: &[Event], view: &WireView, p: &Params
                         }
                     }
                     ApiOp::ReadRet(_) | ApiOp::WriteRet(_) | ApiOp::WriteCall { .. } => last_activity = e.t,
-                    ApiOp::DropReader | ApiOp::DropWriter | ApiOp::ShutdownCall => {
+                    // closing the sending direction does not end the duties of the receiving one
+                    ApiOp::DropWriter | ApiOp::ShutdownCall => {
+                        rep.counters.inc("c07_local_closes_seen");
+                        last_activity = e.t;
+                    }
+                    ApiOp::DropReader => {
                         closing = true;
                         delayed.clear();
                         immediate = None;
@@ -261,8 +278,7 @@ pub fn check(rep: &mut CaseReport, events: &[Event], view: &WireView, p: &Params
                 unacked = 0;
                 last_emitted_wnd = Some(pk.wnd);
                 if pk.ty == wire::ST_FIN {
-                    closing = true;
-                    delayed.clear();
+                    rep.counters.inc("c07_own_fins_seen");
                 }
             }
             _ => {}
